@@ -28,3 +28,29 @@ fn c18b_lzip_option_clamps() {
     kani::cover!(dict > MAX_DICT_SIZE, "dictionary clamped down");
     core::mem::forget(w);
 }
+
+// C03-B / C02-G: member header layout: "LZIP", version 1, dictionary byte that decodes to a size covering the encoder's.
+//@ {"name":"c03b_lzip_member_header","props":["C03","C02"],"obligation":"C03-B","timeout":1500,"mem_gb":9,"stubbing":true,"functions":["lzip::writer::LZIPWriter::new","lzip::writer::LZIPWriter::start_new_member","lzip::encode_dict_size","enc::lzma_writer::LZMAWriter::new_no_header"],"bounds":"dict_size one of {4096, 5000, 65536, 1 MiB} (symbolic selector); no data written; unwind 10","assumes":["LZMAEncoder::new stubbed (verif_cheap_encoder)"],"stubs":["LZMAEncoder::new -> verif_cheap_encoder"]}
+#[kani::proof]
+#[kani::unwind(10)]
+#[kani::stub(crate::enc::encoder::LZMAEncoder::new, crate::enc::encoder::verif_stubs_enc::verif_cheap_encoder)]
+fn c03b_lzip_member_header() {
+    let k: u8 = kani::any();
+    kani::assume(k < 4);
+    let dict: u32 = match k { 0 => 4096, 1 => 5000, 2 => 65536, _ => 1 << 20 };
+    let o = LZIPOptions {
+        lzma_options: LZMAOptions::new(dict, 3, 0, 2, EncodeMode::Fast, 32, MFType::HC4, 4),
+        member_size: None,
+    };
+    let mut w = LZIPWriter::new(Sink::<16>::new(), o);
+    assert!(w.start_new_member().is_ok());
+    let lw = w.lzma_writer.take().unwrap();
+    let counting = lw.into_inner();
+    assert!(counting.bytes_written() == 0, "compressed-size counter must start after the header");
+    let s = counting.into_inner();
+    assert!(s.len == 6, "C03-B: LZIP member header is 6 bytes");
+    assert!(s.buf[0] == b'L' && s.buf[1] == b'Z' && s.buf[2] == b'I' && s.buf[3] == b'P' && s.buf[4] == 1);
+    let d = crate::lzip::decode_dict_size(s.buf[5]);
+    assert!(d.is_ok() && d.unwrap() >= dict, "C02-A: member header dictionary smaller than the encoder's");
+    kani::cover!(k == 1, "size that is not exactly representable");
+}
